@@ -41,7 +41,7 @@ def rq(*params):
     return {"params": ps}
 
 
-NEG = rq(C("sid", 0x7F), MR("rsid"), NRC("nrc", [0x11, 0x12]))
+NEG = rq(C("sid", 0x7F), MR("rsid"), NRC("nrc", [0x11, 0x12, 0x31]))
 NEG2 = rq(C("sid", 0x7F), MR("rsid"), NRC("nrc", [0x22]))
 GNR = rq(C("sid", 0x7F), MR("rsid"), V("code"))
 GNR_SHORT = rq(C("sid", 0x7F), V("code"))
@@ -85,6 +85,22 @@ LAYERS = {
     "two-global-negatives": {"services": [
         {"name": "A", "request": rq(C("sid", 0x10), V("x"))},
     ], "gnr": [GNR, rq(C("sid", 0x7E), MR("rsid"))]},
+    "two-positive-responses": {"services": [
+        {"name": "A", "request": rq(C("sid", 0x19), C("sub", 0x02), V("mask")),
+         "pos": [rq(C("sid", 0x59), C("sub", 0x02), V("avail"), V("dtc", 24)),
+                 rq(C("sid", 0x59), C("sub", 0x03), V("n", 16))], "neg": [NEG]},
+        {"name": "B", "request": rq(C("sid", 0x19), C("sub", 0x03)),
+         "pos": [rq(C("sid", 0x59), C("sub", 0x03), V("m", 16), V("extra"))]},
+    ]},
+    "identical-requests": {"services": [
+        {"name": "A", "request": rq(C("sid", 0x3E), V("sub")), "pos": [rq(C("sid", 0x7E), MR("sub", 1, 1))]},
+        {"name": "B", "request": rq(C("sid", 0x3E), V("zero")), "pos": [rq(C("sid", 0x7E), V("z"))]},
+    ]},
+    "gnr-with-nrc-const": {"services": [
+        {"name": "A", "request": rq(C("sid", 0x10), V("x")), "pos": [rq(C("sid", 0x50), V("y"))]},
+        {"name": "B", "request": rq(C("sid", 0x11), V("x"))},
+    ], "gnr": [rq(C("sid", 0x7F), MR("rsid"), NRC("nrc", [0x10, 0x21])),
+               rq(C("sid", 0x7F), MR("rsid"), NRC("nrc", [0x78]), V("more"))]},
     "sid-16-bit": {"services": [
         {"name": "A", "request": rq(C("sid", 0x2201, 16), V("x"))},
         {"name": "B", "request": rq(C("sid", 0x22, 8), C("did", 0x02, 8), V("y"))},
@@ -153,6 +169,18 @@ def obj_matches(params, M, request_prefix):
 def on_path(prefix, R):
     """concrete: is `prefix` a prefix of the concrete byte string R"""
     return len(prefix) <= len(R) and bytes(R[:len(prefix)]) == bytes(prefix)
+
+
+def first_bytes(spec):
+    out = set()
+    for sv in spec["services"]:
+        rqp = prefix_of(sv["request"]["params"]) if sv.get("request") else b""
+        for r in [sv.get("request")] + sv.get("pos", []) + sv.get("neg", []) + spec.get("gnr", []):
+            if r:
+                pre = prefix_of(r["params"], rqp)
+                if pre:
+                    out.add(pre[0])
+    return out
 
 
 def candidates_for_request(spec, R):
@@ -225,6 +253,10 @@ def run_decode(sx, cfg, env):
     import warnings
     layer, spec = env["layer"], env["spec"]
     M = sx.bytes("msg", cfg["mlen"])
+    if cfg.get("first") is not None:
+        sx.assume(M[0] == cfg["first"])
+    elif cfg.get("not_first"):
+        sx.assume(s_and(*[M[0] != b for b in cfg["not_first"]]))
     want = reference(spec, M)
     ambiguous = len({k[0] for k in want}) != len(want)
     if ambiguous:
@@ -373,9 +405,17 @@ def configs(tier, seed):
         ml = maxlen
         if tier == "quick" and name not in ("global-negative-long-service", "nested-prefix"):
             ml = 3
+        firsts = sorted(first_bytes(spec))
         for n in range(0, ml + 1):
-            out.append({"id": f"decode/{name}/len{n}", "harness": "decode", "layer": name, "mlen": n,
-                        "build": {"layer": name}})
+            base = {"harness": "decode", "layer": name, "mlen": n, "build": {"layer": name}}
+            if n >= 2:
+                # one configuration per first byte that occurs in the prefix tree (+ "other"), so
+                # that the work spreads over the cores
+                for fb in firsts:
+                    out.append(dict(base, id=f"decode/{name}/len{n}/b{fb:02x}", first=fb))
+                out.append(dict(base, id=f"decode/{name}/len{n}/other", not_first=firsts))
+            else:
+                out.append(dict(base, id=f"decode/{name}/len{n}"))
         for i, sv in enumerate(spec["services"]):
             if sv.get("request"):
                 out.append({"id": f"own/{name}/{sv['name']}", "harness": "own", "layer": name,
